@@ -50,6 +50,18 @@ ASSUME DevRefuted ==
   /\ DevRefutedOn("d1", Ch(<<[a |-> "A4", p |-> 5], [a |-> "A1", p |-> 0], [a |-> "A2", p |-> -1]>>))
   /\ DevRefutedOn("d2", Ch(<<[a |-> "A2", p |-> 5], [a |-> "A1", p |-> 0]>>))
   /\ DevRefutedOn("d3", Ch(<<[a |-> "A3", p |-> 5], [a |-> "A1", p |-> 0]>>))
+  \* (round 4) an empty winning version is a version: over a non-empty older one, and as the only one
+  /\ DevRefutedOn("d4", Ch(<<[a |-> "A2", p |-> 5], [a |-> "A1", p |-> 0]>>))
+  /\ DevRefutedOn("d4", Ch(<<[a |-> "A3", p |-> 0]>>))
+\* ... and the chain resolves through empty contents: empty base, a patch whose result is empty, a patch on top of that
+ASSUME EmptyIsAVersion ==
+  LET c4 == Ch(<<[a |-> "A2", p |-> -1], [a |-> "A1", p |-> -1], [a |-> "A3", p |-> 0], [a |-> "A4", p |-> 5]>>)
+      c3 == Ch(<<[a |-> "A1", p |-> -1], [a |-> "A2", p |-> 0], [a |-> "A3", p |-> 5]>>)
+  IN  /\ PropRead(c4, StdWorld, "e3") = Res("ok", "x94")
+      /\ PropRead(c3, StdWorld, "e3") = Res("ok", EmptyC)
+      /\ PropRead(c3, StdWorld, "e1") = Res("ok", "c83")
+      /\ PropRead(c4, StdWorld, "e1") = Res("ok", EmptyC)
+      /\ PropRead(c4, StdWorld, "e2") = Res("ok", EmptyC)
 \* the deviation of SetPriority is real: re-prioritising to the *same* priority can change the winner
 ASSUME SetPrioDeviates ==
   LET c0 == SeqBuild(<<>>, <<[a |-> "A1", p |-> 0], [a |-> "A2", p |-> 0]>>)
